@@ -407,6 +407,9 @@ def d5_counter(site, body):
     return None
 
 
+INT_TYS = ("u8", "u16", "u32", "u64", "u128", "usize", "i8", "i16", "i32", "i64", "i128")
+
+
 def cmp_guards(body, site_bb):
     """comparisons whose one edge dominates the site: yields (op, a_operand, b_operand, holds) where
     (a op b) is known to hold at the site"""
@@ -415,6 +418,19 @@ def cmp_guards(body, site_bb):
         if b.get("cleanup"):
             continue
         sc = flow.switch_condition(body, i)
+        t_ = b["term"]
+        if (not sc or sc.get("kind") != "cmp") and t_["k"] == "switch" and t_.get("discr_ty") in INT_TYS and len(t_.get("targets", [])) == 1 and \
+                t_["discr"].get("k") in ("copy", "move") and body.dominates(i, site_bb) and i != site_bb:
+            # `if x == K {..}` on an integer is a switchInt without a comparison: x != K holds on the otherwise edge
+            v_, tgt = t_["targets"][0]
+            kop = {"k": "const", "ty": t_["discr_ty"], "int": v_}
+            via_t = site_bb in flow.reach_avoiding(body, [tgt], [i])
+            via_o = site_bb in flow.reach_avoiding(body, [t_["otherwise"]], [i])
+            if via_o and not via_t:
+                out.append(("Ne", t_["discr"], kop, i))
+            elif via_t and not via_o:
+                out.append(("Eq", t_["discr"], kop, i))
+            continue
         if not sc or sc.get("kind") != "cmp":
             continue
         if not body.dominates(i, site_bb) or i == site_bb:
@@ -713,6 +729,8 @@ def _expr_key(body, op, depth=4):
     c = flow.const_of(op)
     if c is not None:
         return ("c", c)
+    if op.get("k") in ("copy", "move") and any(e != "*" for e in op["pl"]["p"]):
+        return ("place", canon_place(body, op["pl"]))        # a field read used directly as an operand
     r = flow.root(body, op)
     if r[0] == "const":
         return ("c", flow.const_of(r[1]))
@@ -822,6 +840,15 @@ def analyse(ctx, bodies, rule_prefix, extra_rules=(), table=None, skip=None, inc
                     oks.append(r if twin else None)
                 if oks and all(oks):
                     reason = "guarded in every caller (%d): %s" % (len(oks), oks[0])
+            if not reason and not getattr(b, "inlined", False):
+                # the guard and the use may go through small local helpers (a validated-length newtype's accessors): retry the same
+                # site with the helpers this function calls written out
+                ib = F.inlined(b)
+                if ib is not b:
+                    twin = [x for x in enumerate_sites(ib, include_alloc=include_alloc, narrowing=narrowing) if x.origin == b.path and x.what == s.what and x.ordinal == s.ordinal]
+                    rs = [try_rules(x, ib) for x in twin]
+                    if twin and all(rs):
+                        reason = "with local helpers inlined: %s" % rs[0]
         if reason:
             s.discharged_by = reason
             ctx.discharged(rule_prefix, "%s in %s" % (s.what, s.short_fn()), s.span, reason)
@@ -1030,6 +1057,30 @@ def rule_sub_one_guard(site, body):
                         between = flow.reach_avoiding(body, [edge], [gbb])
                         if not [h for h in shr if h.bb in between and site.bb in flow.reach_avoiding(body, [h.target] if h.target is not None else [], [gbb])]:
                             return "x < v.len() dominates v.len() - 1 with no removal in between (bb%d)" % gbb
+    # L read from a place (a field of *self): the guard reads the same place, and nothing stores to it in between
+    ka = _expr_key(body, det["a"]) if al is not None else ("?",)
+    if ka[0] == "place":
+        for op, x, y, gbb in cmp_guards(body, site.bb):
+            same = None
+            if op == "Ne" and flow.const_of(y) == 0 and op_local(x) is not None and _expr_key(body, x) == ka:
+                same = "L != 0"
+            elif op == "Ne" and flow.const_of(x) == 0 and op_local(y) is not None and _expr_key(body, y) == ka:
+                same = "L != 0"
+            elif op == "Lt" and op_local(y) is not None and _expr_key(body, y) == ka:
+                same = "x < L"
+            elif op == "Gt" and op_local(x) is not None and _expr_key(body, x) == ka:
+                same = "L > x"
+            if same:
+                sc = flow.switch_condition(body, gbb)
+                if sc and sc.get("kind") == "cmp":
+                    edge = sc["true"] if sc["op"] == op else sc["false"]
+                else:
+                    edge = body.term(gbb)["otherwise"]          # integer switch: the `!= K` edge
+                between = {b_ for b_ in flow.reach_avoiding(body, [edge], [gbb]) if site.bb in flow.reach_avoiding(body, [b_], [gbb])}
+                stores = [1 for i2, j2, pl2, rv2, s2 in body.assigns() if i2 in between and i2 != site.bb and pl2["p"] and ("place", canon_place(body, pl2)) == ka]
+                calls_mut = [c2 for c2 in body.calls() if c2.bb in between and c2.bb != site.bb and any("&mut" in t_ for t_ in c2.arg_tys)]
+                if not stores and not calls_mut:
+                    return "%s dominates L - 1 for the same place, no store in between (bb%d)" % (same, gbb)
     for op, x, y, gbb in cmp_guards(body, site.bb):
         # L != 0 (the continue edge of `if L == 0 { break }`)
         if op == "Ne" and ((flow.const_of(y) == 0 and op_local(x) is not None and flow.root_local(body, x) == ar) or
